@@ -9,10 +9,11 @@ from uuid import UUID
 
 from pydiverse.transform._internal import errors
 from pydiverse.transform._internal.backend.table_impl import TableImpl
+from pydiverse.transform._internal.ops import ops
 from pydiverse.transform._internal.ops.op import Ftype
 from pydiverse.transform._internal.tree import types, verbs
 from pydiverse.transform._internal.tree.ast import AstNode
-from pydiverse.transform._internal.tree.col_expr import Col, ColFn
+from pydiverse.transform._internal.tree.col_expr import Cast, Col, ColExpr, ColFn
 
 
 @dataclasses.dataclass(slots=True)
@@ -303,6 +304,14 @@ class Cache:
             ):
                 return "left / full join with a table containing a constant column"
 
+            # The select list is evaluated after the join. On the null-padded side of a left / full join this is only
+            # correct for columns that are null whenever their inputs are (`fill_null`, `is_null`, `coalesce`, case
+            # expressions, ... give a non-null value for a padded row).
+            if (node.how == "full" or (node.child not in self.derived_from and node.how == "left")) and not all(
+                is_null_strict(self.cols[uid]) for uid in self.uuid_to_name.keys()
+            ):
+                return "left / full join with a table containing a column that is not null for null inputs"
+
             if any(self.cols[uid].ftype() == Ftype.WINDOW for uid in self.uuid_to_name.keys()):
                 return "join with a table containing window function expression"
 
@@ -327,6 +336,37 @@ class Cache:
 
     def selected_cols(self) -> list[Col]:
         return [self.cols[uid] for uid in self.uuid_to_name.keys()]
+
+
+# element-wise operators that can give a non-null result although all their column inputs are null
+NOT_NULL_PROPAGATING = (
+    ops.bool_and,
+    ops.bool_or,
+    ops.coalesce,
+    ops.fill_null,
+    ops.horizontal_all,
+    ops.horizontal_any,
+    ops.horizontal_max,
+    ops.horizontal_min,
+    ops.horizontal_sum,
+    ops.is_in,
+    ops.is_not_null,
+    ops.is_null,
+    ops.rand,
+)
+
+
+def is_null_strict(expr: ColExpr) -> bool:
+    """Whether `expr` is null in every row in which all columns it reads are null."""
+    if isinstance(expr, Col):
+        if isinstance(expr._ast, verbs.Mutate) and expr._uuid in expr._ast.uuids:
+            return is_null_strict(expr._ast.values[expr._ast.uuids.index(expr._uuid)])
+        return True
+    if isinstance(expr, Cast):
+        return is_null_strict(expr.val)
+    if isinstance(expr, ColFn):
+        return expr.op not in NOT_NULL_PROPAGATING and any(is_null_strict(arg) for arg in expr.args)
+    return False
 
 
 def transfer_col_references(table, ref_source):
